@@ -57,12 +57,32 @@ def _m1():
     return cfg
 
 
+def _m5():
+    """World B, retention across master restarts and repeated freezes: small
+    alphabet, deeper histories."""
+    cfg = _m1()
+    cfg['servers'] = {k: v for k, v in cfg['servers'].items()
+                      if k in ('s0', 's1')}
+    cfg['max_apps'] = 2
+    cfg['allow_nocycle'] = False
+    cfg['events'] = mastercfg.ev(
+        ('app+', 'sm'),
+        ('pres-', 's0'), ('pres+', 's0', 0),
+        ('state', 's0', 'frozen', 0), ('state', 's1', 'frozen', -1),
+        ('state', 's0', 'up', -1),
+        ('tick', 10), ('tick', 25), ('noop',), ('restart',),
+    )
+    return cfg
+
+
 def configs(ctx):
     if ctx.quick:
         return [('K1', _k1(), 4, 1),
-                ('M1', _m1(), 3, 0, _masterprop.MasterSpec)]
+                ('M1', _m1(), 3, 0, _masterprop.MasterSpec),
+                ('M5', _m5(), 6, 0, _masterprop.MasterSpec)]
     return [('K1', _k1(), 6, 1),
-            ('M1', _m1(), 5, 1, _masterprop.MasterSpec)]
+            ('M1', _m1(), 5, 1, _masterprop.MasterSpec),
+            ('M5', _m5(), 9, 0, _masterprop.MasterSpec)]
 
 
 RULE = ('BFS over down/up/frozen transitions, clock advances around the '
